@@ -80,3 +80,11 @@
        (=> (= t 0) (= x (to_real sig)))
        (=> (= t 1) (and (< (to_real sig) x) (< x (to_real (+ sig 1)))))
        (=> (= t (- 1)) (and (< (to_real (- sig 1)) x) (< x (to_real sig))))))
+; Ovf(rm, neg, x): with x the exact magnitude in units of 10^12287-bias (the largest exponent), the
+; rounded result exceeds the largest finite Decimal M x 10^6111.
+(define-fun Ovf ((rm Int) (neg Bool) (x Real)) Bool
+  (ite (<= rm 1) (>= x (+ (to_real M) 0.5))
+  (ite (= rm 2) (>= x (to_real (+ M 1)))
+  (ite (= rm 3) (> x (to_real M))
+  (ite (= rm 4) (ite neg (> x (to_real M)) (>= x (to_real (+ M 1))))
+                (ite neg (>= x (to_real (+ M 1))) (> x (to_real M))))))))
